@@ -6,7 +6,9 @@ is exhausted or a value is malformed (C03, C02); `split_at` never panics and the
 deserializer that is offered, on the slice path AND on the reader path, has had `set_max_depth(DEPTH_LIMIT)` applied (C18).
 Reader path (C03): a document is requested only from a buffered reader whose `fill_buf` has just shown remaining input
 (precondition-contract on `rmp_serde::Deserializer::new`), and the loop is left only when `fill_buf` has shown that
-NOTHING is left (loop `ensures br_at_eof(&r)`) -- no trailing byte is dropped, no document is requested at EOF.
+NOTHING is left (loop `ensures br_at_eof(&r)`) -- no trailing byte is dropped, no document is requested at EOF
+(`transcode_from` REQUIRES a deserializer built over at least one remaining byte, on both paths).
+`match_input_buffer` / `match_input_reader` (verbatim): the detection parse runs only with the depth limit set (C18, C04).
 
 Stand-ins with ASSUMED contracts (listed in the evidence): `rmp_serde::Deserializer` (constructors record the bytes
 they were built over; `set_max_depth` records its argument), the trait `crate::Output` with a ghost log of what was
@@ -54,12 +56,31 @@ pub assume_specification<R: ?Sized + std::io::Read> [<std::io::BufReader<R> as s
 
 pub mod serde {
     pub mod de {
+        use vstd::prelude::*;
         pub trait Error {}
         pub trait Deserializer<'de> { type Error; }
+        pub trait Deserialize<'de>: Sized {
+            // C18 / C04 (detection): a trial parse may only run on a deserializer that carries the depth limit
+            fn deserialize<D: Deserializer<'de>>(d: D) -> (r: Result<Self, D::Error>)
+                requires crate::de_depth(&d) == Some(crate::limit_v()),
+            ;
+        }
+        pub struct IgnoredAny;
+        impl<'de> Deserialize<'de> for IgnoredAny {
+            #[verifier::external_body]
+            fn deserialize<D: Deserializer<'de>>(d: D) -> (r: Result<Self, D::Error>) { unimplemented!() }
+        }
     }
     pub mod ser { pub trait Serialize {} }
+    pub use de::Deserialize;
 }
-use serde::{de, ser};
+use serde::{de, ser, Deserialize};
+// (a public requires clause cannot name the private const; closed: equal to DEPTH_LIMIT inside this module)
+pub closed spec fn limit_v() -> usize { DEPTH_LIMIT }
+#[verifier::allow(undeclared_external_trait)]
+pub assume_specification<T, E, U> [std::result::Result::<T, E>::and::<U>] (a: std::result::Result<T, E>, b: std::result::Result<U, E>) -> (r: std::result::Result<U, E>)
+    where T: std::marker::Destruct, E: std::marker::Destruct, U: std::marker::Destruct,
+    ensures r == (match a { Ok(_) => b, Err(e) => Err::<U, E>(e) });
 
 // xt's error type: anything converts into it
 #[verifier::external_body]
@@ -78,29 +99,29 @@ pub mod rmp_serde {
     // ghost views: the bytes a slice deserializer was built over (empty for a reader deserializer), and the depth limit in force
     pub uninterp spec fn rd_src<R>(d: &Deserializer<R>) -> Seq<u8>;
     pub uninterp spec fn rd_depth<R>(d: &Deserializer<R>) -> Option<usize>;
+    // whether the deserializer was built over input that had at least one byte left
+    pub uninterp spec fn rd_live<R>(d: &Deserializer<R>) -> bool;
     impl<'a> Deserializer<ReadRefReader<'a>> {
         #[verifier::external_body]
         pub fn from_read_ref(rd: &'a [u8]) -> (d: Self)
-            ensures rd_src(&d) == rd@, rd_depth(&d) is None,
+            ensures rd_src(&d) == rd@, rd_depth(&d) is None, rd_live(&d) == (rd@.len() > 0),
         { unimplemented!() }
     }
     impl<R: std::io::Read> Deserializer<ReadReader<R>> {
         #[verifier::external_body]
         pub fn new(rd: R) -> (d: Self)
-            // C03 (reader path): a document is requested only from a reader that has input left
-            requires super::rd_has_input(&rd),
-            ensures rd_src(&d) == Seq::<u8>::empty(), rd_depth(&d) is None,
+            ensures rd_src(&d) == Seq::<u8>::empty(), rd_depth(&d) is None, rd_live(&d) == super::rd_has_input(&rd),
         { unimplemented!() }
     }
     impl<R> Deserializer<R> {
         #[verifier::external_body]
         pub fn set_max_depth(&mut self, depth: usize)
-            ensures rd_src(final(self)) == rd_src(old(self)), rd_depth(final(self)) == Some(depth),
+            ensures rd_src(final(self)) == rd_src(old(self)), rd_depth(final(self)) == Some(depth), rd_live(final(self)) == rd_live(old(self)),
         { unimplemented!() }
     }
     impl<'de, 'x, R> super::de::Deserializer<'de> for &'x mut Deserializer<R> { type Error = decode::Error; }
 }
-use rmp_serde::{rd_src, rd_depth};
+use rmp_serde::{rd_src, rd_depth, rd_live};
 
 // what a deserializer handed to the output was built over / which depth limit it carries (generic over the handed-over type)
 pub uninterp spec fn de_src<D>(d: &D) -> Seq<u8>;
@@ -113,7 +134,12 @@ pub broadcast proof fn axiom_de_src<R>(m: &&mut rmp_serde::Deserializer<R>)
 pub broadcast proof fn axiom_de_depth<R>(m: &&mut rmp_serde::Deserializer<R>)
     ensures #[trigger] de_depth::<&mut rmp_serde::Deserializer<R>>(m) == rd_depth(&*old(*m)),
 { }
-pub broadcast group axiom_de_views { axiom_de_src, axiom_de_depth }
+pub uninterp spec fn de_live<D>(d: &D) -> bool;
+#[verifier::external_body]
+pub broadcast proof fn axiom_de_live<R>(m: &&mut rmp_serde::Deserializer<R>)
+    ensures #[trigger] de_live::<&mut rmp_serde::Deserializer<R>>(m) == rd_live(&*old(*m)),
+{ }
+pub broadcast group axiom_de_views { axiom_de_src, axiom_de_depth, axiom_de_live }
 
 // ghost log of an output: the byte strings of the documents offered so far
 pub uninterp spec fn out_log<O: ?Sized>(o: &O) -> Seq<Seq<u8>>;
@@ -123,7 +149,8 @@ trait Output {
     where
         D: de::Deserializer<'de, Error = E>,
         E: de::Error + Send + Sync + 'static,
-        requires de_depth(&de) == Some(DEPTH_LIMIT),
+        // C18: the depth limit is set; C03: a document is requested only from input that has at least one byte left
+        requires de_depth(&de) == Some(DEPTH_LIMIT), de_live(&de),
         ensures out_log(final(self)) == out_log(old(self)).push(de_src(&de)),
     ;
     fn transcode_value<S>(&mut self, value: S) -> Result<()>
@@ -232,6 +259,9 @@ ITEMS = M.ITEMS + [
     dict(src='repo:src/input.rs', kind='enum', name='Input', drop_vis=True, wrap=('    pub', '')),
     dict(raw=INPUT_TAIL),
     dict(src='repo:src/msgpack.rs', kind='const', name='DEPTH_LIMIT'),
+    # the two detection trials: the parse runs on a deserializer with the depth limit set (precondition of the IgnoredAny stand-in)
+    dict(src='repo:src/msgpack.rs', kind='fn', name='match_input_buffer', contract=dict(prologue='broadcast use axiom_de_views;')),
+    dict(src='repo:src/msgpack.rs', kind='fn', name='match_input_reader', contract=dict(prologue='broadcast use axiom_de_views;')),
     dict(src='repo:src/msgpack.rs', kind='fn', name='transcode',
          contract=dict(ret='r', spec='ensures true,', attrs=['#[verifier::exec_allows_no_decreases_clause]', '#[verifier::rlimit(80)]'],
                        prologue=PROLOGUE,
